@@ -37,7 +37,7 @@ func (w *vWorld) vDisjointRequests(k int) []vReq {
 	return out
 }
 
-// BOUND: quick: 2 topologies, thorough: 4 topologies (3-4 IPs); k = 1..3 pairwise-disjoint requested ranges with endpoints among the configured addresses (ranges may span pools and gaps), any order; symbolic pre-state (any subset allocated, symbolic owners); any node subnet incl. one no pool lists; at most one FloatingIP creation fails at a symbolic position
+// BOUND: quick: 2 topologies, thorough: 4 topologies (3-4 IPs); k = 1..3 pairwise-disjoint requested ranges with endpoints among the configured addresses (ranges may span pools and gaps), any order; symbolic pre-state (any subset allocated, symbolic owners); any node subnet incl. one no pool lists; at most one FloatingIP creation fails at a symbolic position, and optionally the store already holds somebody else's object for the first address of one requested range (the creation answers AlreadyExists)
 // ASSUME: C08: requested ranges are pairwise disjoint (property quantifier); AllocateInSubnetsAndIPRange is called for ranges the key does not hold yet
 func VerifC08_q_allOrNothing() {
 	nTopo := VNumTopologies
@@ -62,8 +62,34 @@ func VerifC08_q_allOrNothing() {
 	before := w.snapshot()
 	w.store.Only = "create"
 	w.store.FaultAt = nondetInt(0, 3)
+	// a creation may also fail because the store already holds an object for a free address that the tables have not
+	// heard of yet (an administrator's reservation whose watch event is still under way, another writer)
+	foreign := ""
+	if nondetBool() {
+		r := reqs[nondetChoice(k)]
+		foreign = w.ips[r.lo]
+		if _, taken := w.store.Objs[foreign]; taken {
+			foreign = ""
+		} else {
+			obj := newFIPCrd(foreign)
+			obj.Spec.Key = "reserved-by-admin"
+			w.store.Objs[foreign] = obj
+		}
+	}
 	ips, err := w.ipam.AllocateInSubnetsAndIPRange(key, subnet, ipranges, attr)
 	verifReach("returned")
+	if foreign != "" {
+		// the foreign object is the other writer's: it must survive, and the address must not be handed out
+		obj, still := w.store.Objs[foreign]
+		verifAssert("C08/foreign-object-kept", still && obj.Spec.Key == "reserved-by-admin", "an object another writer created for a free address was overwritten or deleted by the allocation")
+		for _, ip := range ips {
+			verifAssert("C08/foreign-not-handed-out", ip.String() != foreign, "an address whose store object belongs to somebody else was handed out")
+		}
+		delete(w.store.Objs, foreign) // taken out again so that the memory == store comparison below is about the allocation itself
+		if f, inMem := w.ipam.allocatedFIPs[foreign]; inMem {
+			verifAssert("C08/foreign-not-recorded?", f.Key != key, "an address whose store object belongs to somebody else is recorded for the key in memory")
+		}
+	}
 	verifAssert("C08/agree", w.agree(), "memory and store disagree after a multi-IP allocation")
 	after := w.snapshot()
 	if err != nil {
